@@ -56,6 +56,27 @@ func exactCheckFacts(_ string, p *pkgFiles, f *facts) {
 	}
 	sort.Slice(rows, func(i, j int) bool { return rows[i][0] < rows[j][0] })
 	f.recs["exactChecks"] = rows
+	// the position hints every estimate can answer with, in source order (second result of each return statement)
+	var hintRows [][]string
+	for typ, ms := range methods {
+		fd, ok := ms["EstimateIsViolated"]
+		if !ok || fd.Body == nil {
+			continue
+		}
+		var hints []string
+		ast.Inspect(fd.Body, func(n ast.Node) bool {
+			if _, isLit := n.(*ast.FuncLit); isLit {
+				return false
+			}
+			if rs, ok := n.(*ast.ReturnStmt); ok && len(rs.Results) == 2 {
+				hints = append(hints, p.src(rs.Results[0])+"/"+p.src(rs.Results[1]))
+			}
+			return true
+		})
+		hintRows = append(hintRows, append([]string{typ}, hints...))
+	}
+	sort.Slice(hintRows, func(i, j int) bool { return hintRows[i][0] < hintRows[j][0] })
+	f.recs["estimateHints"] = hintRows
 	// does Latest's stop check depend on SatisfiesTriangleInequality, and does anything in the factory set it?
 	uses := "no"
 	if fd := methods["latestImpl"]["DoesStopHaveViolations"]; fd != nil && strings.Contains(p.src(fd.Body), "SatisfiesTriangleInequality()") {
